@@ -105,7 +105,7 @@ CHECKS["C28"] = ("qshuttle", "two generated searches with one oracle (exact coun
     "Generated search with shrinking. Stress: bursts that take >= 0.9 s are repeated so that every judged burst falls within one second. Shuttle: workloads (threads x bursts, limit 1-6, slip 0/1/2, table size 1/3/64, NOERROR/NXDOMAIN/error streams, optional second stream) x 80-300 schedules each; logical clock frozen; failing schedule printed, replay re-derives it from the workload's seed.",
     _Q + " The stress part (vcheck C28S) runs first and its numbers are folded into the same evidence file.", "§4 C28")
 CHECKS["C29"] = ("qshuttle", "randomised schedule exploration (shuttle random + PCT schedulers) of the unmodified thread-pool source with condition-variable timeouts that can fire at any scheduling point; proptest workloads (workers, lingering, submitters, shut-down points, injected spawn failure); oracle = ledger invariants over the history of every execution",
-    "Generated search with shrinking over workloads x 60-250 schedules each. Ledger: accepted => ran exactly once and had finished when await_shutdown returned; rejected => never ran; nothing runs after await_shutdown returned; submissions begun after a shut-down returned are rejected with ShuttingDown; no deadlock (shuttle's detector), every call returns.",
+    "Generated search with shrinking over workloads x 60-250 schedules each. Ledger: accepted => ran exactly once and had finished when await_shutdown returned; rejected => never ran; nothing runs after await_shutdown returned; submissions begun after a shut-down returned are rejected with ShuttingDown; no deadlock (shuttle's detector), every call returns. Two fifths of the eligible workloads run gated (no timeouts, a gate task on a permanent worker, shut-down only after every submitter returned), where a submit() that is never woken shows as a deadlock.",
     _Q + " Executions that hit the 20000-step bound (unfair PCT schedules spinning in the respawn loop after a pool-only shut-down) are abandoned and counted, not judged.", "§4 C29")
 CHECKS["C32"] = ("qshuttle", "randomised schedule exploration (shuttle random + PCT schedulers) of proptest workloads: one swapper thread, or two (one for catalogs, one for key sets), replacing catalogs and TSIG key sets while 2-3 threads issue signed/unsigned queries whose every record encodes the catalog generation; oracle = invariant over each response (one generation, inside the [installed-before, begun-by-return] bracket; MAC under the signing generation's key or a consistent BADSIG)",
     "Generated search with shrinking over workloads (2-4 generations, swap order, five query kinds covering answer/authority/additional sections, UDP/TCP) x 60-250 schedules each.",
